@@ -23,7 +23,7 @@ import ast
 import math
 
 from ..absval import eval_pred, orderings
-from ..normalize import canon, expand_bool_locals
+from ..normalize import canon, expand_bool_locals, inline_helpers
 from ..core import (AnalysisError, call_name, const_str, dotted, find_calls,
                     is_self_attr, kwarg, last_attr, names_in, short, txt,
                     walk, subscript_key)
@@ -113,7 +113,9 @@ def _assigned_from(func, pred):
 def r34(ctx, repo, upd):
     h = repo.func(POLY, "PolygonFilter.hash")
     hashed = {n.attr for n in walk(h) if is_self_attr(n)}
-    filt = repo.func(POLY, "PolygonFilter.filter")
+    # (a method body moved into a module-level helper that receives the
+    # polygon as a parameter is followed)
+    filt = inline_helpers(repo, POLY, repo.func(POLY, "PolygonFilter.filter"))
     read = {n.attr for n in walk(filt) if is_self_attr(n)
             and isinstance(n.ctx, ast.Load)}
     # properties resolve to underlying attributes
